@@ -18,9 +18,11 @@ def configs(quick):
         return [dict(cap=2, max=8, sizes=[1, 3, 9], recs=3, nodes=3, shrink=[1], nshrink=1, xrecs=3),
                 dict(cap=4, max=8, sizes=[3, 5, 8], recs=3, nodes=2, shrink=[2], nshrink=1, xrecs=3),
                 dict(cap=2, max=6, sizes=[2, 5, 7], recs=2, nodes=3, shrink=[1], nshrink=0, xrecs=2)]
-    return [dict(cap=2, max=8, sizes=[1, 2, 3, 9], recs=4, nodes=3, shrink=[1], nshrink=1, xrecs=3),
-            dict(cap=4, max=8, sizes=[3, 4, 5, 8], recs=4, nodes=3, shrink=[2, 4], nshrink=2, xrecs=3),
-            dict(cap=2, max=16, sizes=[1, 2, 5, 16, 17], recs=4, nodes=4, shrink=[1, 2], nshrink=1, xrecs=3),
+    # thorough: each around 10^5 states (about a minute of TLC each on an idle machine)
+    return [dict(cap=2, max=8, sizes=[1, 2, 3, 9], recs=3, nodes=4, shrink=[1], nshrink=1, xrecs=3),
+            dict(cap=4, max=8, sizes=[3, 4, 5, 8], recs=3, nodes=3, shrink=[2, 4], nshrink=2, xrecs=3),
+            dict(cap=2, max=16, sizes=[1, 5, 16, 17], recs=3, nodes=4, shrink=[1, 2], nshrink=1, xrecs=3),
+            dict(cap=2, max=8, sizes=[1, 3], recs=4, nodes=3, shrink=[1], nshrink=1, xrecs=4),
             dict(cap=4, max=4, sizes=[1, 4, 5], recs=4, nodes=2, shrink=[1, 2], nshrink=2, xrecs=4),
             dict(cap=2, max=6, sizes=[1, 2, 5, 6, 7], recs=3, nodes=3, shrink=[1], nshrink=1, xrecs=3),
             dict(cap=4, max=12, sizes=[3, 9, 12, 13], recs=3, nodes=3, shrink=[2], nshrink=1, xrecs=3)]
